@@ -28,6 +28,16 @@ type arena struct {
 	mem         []byte
 	off         int
 	base        uintptr
+	// twin: see arena_common.go (a twin has no fence: its job is different
+	// surroundings, not guard pages)
+	twin bool
+	n    int
+}
+
+// exact reports whether the next twin slice gets cap == len.
+func (a *arena) exact() bool {
+	a.n++
+	return a.twin && a.n%2 == 0
 }
 
 const ArenaReadOnly = true
@@ -39,10 +49,13 @@ const (
 	nFence = 192
 )
 
-func newArena() *arena {
+func newArena(twin bool) *arena {
 	mem, err := syscall.Mmap(-1, 0, arenaSize, syscall.PROT_READ|syscall.PROT_WRITE, syscall.MAP_PRIVATE|syscall.MAP_ANON)
 	if err != nil {
 		panic(engine.HarnessError{Msg: "mmap: " + err.Error()})
+	}
+	if twin {
+		return &arena{mem: mem, base: uintptr(unsafe.Pointer(&mem[0])), twin: true}
 	}
 	fence, err := syscall.Mmap(-1, 0, nFence*2*pageSz, syscall.PROT_READ|syscall.PROT_WRITE, syscall.MAP_PRIVATE|syscall.MAP_ANON)
 	if err != nil {
@@ -54,7 +67,7 @@ func newArena() *arena {
 // fenced returns a copy of x that ends exactly at a guard page (cap == len), or
 // nil if no slot is left or x does not fit.
 func (a *arena) fenced(x []byte) []byte {
-	if a.fenceUsed >= nFence || len(x) == 0 || len(x) > pageSz {
+	if a.twin || a.fenceUsed >= nFence || len(x) == 0 || len(x) > pageSz {
 		return nil
 	}
 	end := a.fenceUsed*2*pageSz + pageSz
@@ -97,6 +110,12 @@ func (a *arena) u64s(x []uint64) []uint64 {
 	copy(out, x)
 	for i := len(x); i < n; i++ {
 		out[i] = sentinel64
+		if a.twin {
+			out[i] = twin64
+		}
+	}
+	if a.exact() {
+		return out[:len(x):len(x)]
 	}
 	return out[:len(x)]
 }
@@ -107,6 +126,12 @@ func (a *arena) i32s(x []int32) []int32 {
 	copy(out, x)
 	for i := len(x); i < n; i++ {
 		out[i] = sentinel32
+		if a.twin {
+			out[i] = twin32
+		}
+	}
+	if a.exact() {
+		return out[:len(x):len(x)]
 	}
 	return out[:len(x)]
 }
@@ -125,8 +150,14 @@ func (a *arena) bytes(x []byte) []byte {
 	copy(out, x)
 	for i := len(x); i < n; i++ {
 		out[i] = sentinel8
+		if a.twin {
+			out[i] = twin8
+		}
 	}
 	a.br.add(uintptr(unsafe.Pointer(&out[0])), uintptr(len(x)))
+	if a.exact() {
+		return out[:len(x):len(x)]
+	}
 	return out[:len(x)]
 }
 
@@ -155,6 +186,9 @@ func (a *arena) strs(x []string) []string {
 func (a *arena) seal() {
 	if err := syscall.Mprotect(a.mem, syscall.PROT_READ); err != nil {
 		panic(engine.HarnessError{Msg: "mprotect: " + err.Error()})
+	}
+	if a.fence == nil {
+		return
 	}
 	if err := syscall.Mprotect(a.fence, syscall.PROT_READ); err != nil {
 		panic(engine.HarnessError{Msg: "mprotect(fence): " + err.Error()})
